@@ -11,6 +11,8 @@ import (
 	"github.com/cosmos/cosmos-sdk/crypto/keys/secp256k1"
 	sdk "github.com/cosmos/cosmos-sdk/types"
 	banktypes "github.com/cosmos/cosmos-sdk/x/bank/types"
+	govv1beta1 "github.com/cosmos/cosmos-sdk/x/gov/types/v1beta1"
+	paramproposal "github.com/cosmos/cosmos-sdk/x/params/types/proposal"
 	stakingtypes "github.com/cosmos/cosmos-sdk/x/staking/types"
 )
 
@@ -309,6 +311,16 @@ func (s *Sim) BuildMsg(a *Action) sdk.Msg {
 		return &stakingtypes.MsgUndelegate{DelegatorAddress: s.bech(a.Creator), ValidatorAddress: s.valStr(a.Target), Amount: sdk.NewInt64Coin(s.W.Cfg.Denom, a.Amount)}
 	case "redelegate":
 		return &stakingtypes.MsgBeginRedelegate{DelegatorAddress: s.bech(a.Creator), ValidatorSrcAddress: s.valStr(a.Target), ValidatorDstAddress: s.valStr(a.Target2), Amount: sdk.NewInt64Coin(s.W.Cfg.Denom, a.Amount)}
+	case "gov_param":
+		// a governance proposal that changes one module parameter (written by x/params, not by the module's keeper)
+		content := paramproposal.NewParameterChangeProposal("change "+a.Extra["key"], "generated", []paramproposal.ParamChange{{Subspace: a.Extra["subspace"], Key: a.Extra["key"], Value: a.Extra["value"]}})
+		m, err := govv1beta1.NewMsgSubmitProposal(content, sdk.NewCoins(sdk.NewInt64Coin(s.W.Cfg.Denom, a.Amount)), s.acct(a.Creator).Addr)
+		if err != nil {
+			panic(err)
+		}
+		return m
+	case "gov_vote":
+		return govv1beta1.NewMsgVote(s.acct(a.Creator).Addr, a.Order, govv1beta1.OptionYes)
 	case "bind_sid":
 		return s.buildBinding(a)
 	case "did_bind":
@@ -348,7 +360,7 @@ func (s *Sim) buildBinding(a *Action) sdk.Msg {
 		root = chain.SidDocId(keys, ts)
 		did = "did:sid:" + root
 	}
-	accDid := "did:key:acct" + fmt.Sprint(bindAcc.Idx)
+	accDid := acctDid(fmt.Sprintf("c%d", bindAcc.Idx))
 	proof := chain.CosmosBindingProof(bindAcc, bindAcc.Priv, did, "Link this account to your did: "+did+"\nTimestamp: "+fmt.Sprint(ts), ts)
 	return &didtypes.MsgBinding{
 		Creator:     acc.Bech,
